@@ -368,3 +368,20 @@ func (w *World) functypeContract(t types.Type) *FuncContract {
 	}
 	return nil
 }
+
+// isConstGlobal reports whether comp is the component of a package-level
+// variable with a declared invariant (such variables are checked never to be
+// written outside the package initialiser and are modelled as constants).
+func (w *World) isConstGlobal(comp string) bool {
+	if !strings.HasPrefix(comp, "V$") {
+		return false
+	}
+	for path, cf := range w.cfiles {
+		for _, g := range cf.Globals {
+			if comp == "V$"+path+"."+g.Name || comp == "V$"+shortPkg(path)+"."+g.Name {
+				return true
+			}
+		}
+	}
+	return false
+}
